@@ -400,6 +400,13 @@ func qualOrigin(p *Prog, c *Chain, arg ast.Expr) (string, bool) {
 				if !isFieldSel(cs.Pkg.TypesInfo, argx, modPath+"/config", "Common", "WrapErrorsUsing") && !passesWrapUsingParam(p, cs, cs.Call.Args[idx], 0) {
 					bad = p.PosStr(cs.Call.Pos())
 				}
+				// the setting in effect is the method's (ctx.Conf…), not the converter's: a method-level
+				// wrapErrorsUsing decides which package the file imports
+				if isFieldSel(cs.Pkg.TypesInfo, argx, modPath+"/config", "Common", "WrapErrorsUsing") {
+					if rid := rootIdent(argx); rid == nil || !isNamed(derefType(cs.Pkg.TypesInfo.TypeOf(rid)), modPath+"/builder", "MethodContext") {
+						bad = p.PosStr(cs.Call.Pos()) + " (read from " + exprString(argx) + ", not from the method context)"
+					}
+				}
 			}
 			if n > 0 && bad == "" {
 				return fmt.Sprintf("parameter %s: all %d caller(s) pass the configured wrapErrorsUsing package", id.Name, n), true
